@@ -937,9 +937,12 @@ func (p *printer) expr1(expr ast.Expr, prec1, depth int) {
 		if x.Ellipsis.IsValid() {
 			p.exprList(x.Lparen, x.Args, depth, 0, x.Ellipsis, false)
 			p.print(x.Ellipsis, token.ELLIPSIS)
-			if x.Rparen.IsValid() && p.lineFor(x.Ellipsis) < p.lineFor(x.Rparen) {
+			if x.NoParenEnd == token.NoPos && x.Rparen.IsValid() && p.lineFor(x.Ellipsis) < p.lineFor(x.Rparen) {
 				p.print(token.COMMA, formfeed)
 			}
+		} else if x.NoParenEnd != token.NoPos {
+			// command style: there is no closing parenthesis a trailing comma could precede
+			p.exprList(x.Lparen, x.Args, depth, 0, token.NoPos, false)
 		} else {
 			p.exprList(x.Lparen, x.Args, depth, commaTerm, x.Rparen, false)
 		}
